@@ -186,6 +186,21 @@ def variants():
         return a
     add("cycle-mutual-unused", lambda s: cyc_mutual(s, False))
     add("cycle-mutual-used", lambda s: cyc_mutual(s, True))
+    # a macro that is *not* part of the cycle but uses it, declared before every cycle member (the diagnostic belongs to the cycle)
+    def cyc_outer(s, where_cycle):
+        lexer_of(s, "a").insert(0, D("macro", "@macro OUTER = 'q' MA", "OUTER", lits=["q"], macrorefs=["MA"]))
+        a = place(s, where_cycle, D("macro", "@macro MA = 'a' MB", "MA", lits=["a"], macrorefs=["MB"]))
+        place(s, where_cycle, D("macro", "@macro MB = 'b' MA", "MB", lits=["b"], macrorefs=["MA"]))
+        return a
+    for w in ("default", "mode", "b"):
+        add("cycle-behind-outer-macro@" + w, lambda s, w=w: cyc_outer(s, w))
+
+    def cyc_outer_self(s, where_cycle):
+        lexer_of(s, "a").insert(0, D("macro", "@macro OUTER = 'q' SELF", "OUTER", lits=["q"], macrorefs=["SELF"]))
+        lexer_of(s, "a").insert(1, D("token", "USESOUTER = OUTER", "USESOUTER", macrorefs=["OUTER"]))
+        return place(s, where_cycle, D("macro", "@macro SELF = 'a' SELF", "SELF", lits=["a"], macrorefs=["SELF"]))
+    for w in ("default", "mode", "b"):
+        add("cycle-self-behind-outer@" + w, lambda s, w=w: cyc_outer_self(s, w))
     # ---- @start
 
     def nostart(s):
